@@ -286,14 +286,21 @@ func init() {
 		"(*strings.Builder).Reset":       pureFresh,
 		"(*strings.Builder).Len":         pureFresh,
 		"(*regexp.Regexp).MatchString":   uninterp("regexp_MatchString"),
-		"(*sync.RWMutex).Lock":           pureFresh,
-		"(*sync.RWMutex).Unlock":         pureFresh,
-		"(*sync.RWMutex).RLock":          pureFresh,
-		"(*sync.RWMutex).RUnlock":        pureFresh,
-		"(*sync.Mutex).Lock":             pureFresh,
-		"(*sync.Mutex).Unlock":           pureFresh,
-		"math.Log":                       uninterp("math_Log"),
-		"math.Inf":                       uninterp("math_Inf"),
+		"os.ReadFile":                    pureFresh, // external effect only: fresh bytes, no access to the program's heap
+		// command plumbing: accessors and buffered writers over external streams; none of them reaches objects of the repository
+		"(*github.com/spf13/cobra.Command).Context":     pureFresh,
+		"(*github.com/spf13/cobra.Command).OutOrStdout": pureFresh,
+		"(*github.com/spf13/cobra.Command).ErrOrStderr": pureFresh,
+		"bufio.NewWriter":         pureFresh,
+		"(*bufio.Writer).Flush":   outUnknown,
+		"(*sync.RWMutex).Lock":    pureFresh,
+		"(*sync.RWMutex).Unlock":  pureFresh,
+		"(*sync.RWMutex).RLock":   pureFresh,
+		"(*sync.RWMutex).RUnlock": pureFresh,
+		"(*sync.Mutex).Lock":      pureFresh,
+		"(*sync.Mutex).Unlock":    pureFresh,
+		"math.Log":                uninterp("math_Log"),
+		"math.Inf":                uninterp("math_Inf"),
 		"math.Abs": func(a *Act, st *State, c *ssa.Function, x []Val, p tokenPos) Val {
 			return t1(app("absr", x[0].T), resType(c, 0))
 		},
@@ -388,6 +395,21 @@ func (a *Act) runeCount(s Term) Term {
 
 func (a *Act) outAdd(st *State, n Term) {
 	st.setHeap(outHeap, "Int", app("+", st.heap(outHeap, "Int"), n))
+}
+
+// io.Writer.Write on an unknown writer: an external effect that does not touch the modelled heap
+// (listed assumption); 0 <= n <= len(p); the ghost output counter becomes unknown.
+func init() {
+	invokeIntrinsics["io.Writer.Write"] = func(a *Act, st *State, com *ssa.CallCommon, pos tokenPos) Val {
+		st.setHeap(outHeap, "Int", a.u.D.Fresh("out", "Int"))
+		res := a.freshResult(st, com.Signature())
+		if res.Tuple != nil && len(res.Tuple) == 2 && len(com.Args) == 1 {
+			bs := a.term(com.Args[0])
+			st.assume(and(app("<=", "0", res.Tuple[0].T), app("<=", res.Tuple[0].T, app("slen", bs))))
+			st.setHeap(outOKHeap, "Bool", and(st.heap(outOKHeap, "Bool"), eq(app("itag", res.Tuple[1].T), "0")))
+		}
+		return res
+	}
 }
 
 func outUnknown(a *Act, st *State, c *ssa.Function, x []Val, p tokenPos) Val {
